@@ -894,7 +894,7 @@ func check(prop, tier string, seed uint64) int {
 		"property_id": prop, "tier": tier, "seed": seed, "level": info.level, "wall_s": wall, "violations": nViol,
 		"assumptions": []string{
 			"the simulated TCP transport (port table, listener, byte pipes, receive window, FIN/RST, deadlines) stands in for the kernel; behaviour only a real socket has cannot be observed",
-			"interleavings are explored at synchronisation operations and I/O (lock acquisition, goroutine start, WaitGroup/channel wake-ups, socket reads and writes), not at individual memory accesses",
+			"interleavings are explored at synchronisation operations and I/O (before lock acquisition, at goroutine start, after WaitGroup/channel wake-ups, at socket reads and writes) and at per-run random subsets of preemption points (function entries; immediately before unlocks, atomics, WaitGroup, Pool, Once, Cond and context operations), not at individual memory accesses",
 			"gldap is compiled with go1.26.8 for the simulation (testing/synctest); the repository's own suite runs on the default toolchain",
 			"a clean batch is evidence, not proof: schedules and inputs are sampled from the seed",
 		},
